@@ -57,10 +57,12 @@ def run(ctx):
         "evaluations": st["steps"],
         "distinct_nontrivial": len(sites),
         "rule": "base histories re-run with an error / a panic forced at a backend call index (sites after the first call of a request, in Close, RenameAt and Renamed first), "
-                "then continued on the same fids and a second connection; distinct = distinct (request type, backend method, error|panic) injection sites",
+                "then continued on the same fids and a second connection; distinct_nontrivial = number of distinct (request type, backend method, error|panic) injection sites actually reached "
+                "(the fault was delivered: the call index exists in the faulted step); samples: boundary = a fault at the LAST call of a multi-call request",
         "correspondence": {"cases": st["steps"], "mismatches": nm, "property_failures": nf, "fault_runs": sum(1 for h in good if h.get("fault")),
                            "injection_sites": sites, "distribution": st},
-        "samples": [next((h["steps"][h["fault"]["step"]] for h in good if h.get("fault") and h["fault"]["step"] < len(h["steps"])), None)],
+        "samples": vsrv.samples([h for h in good if h.get("fault")] or good,
+                                boundary=lambda st: len(st["calls"]) >= 2 and bool(st["calls"][-1]["ans"]["e"] or st["calls"][-1]["ans"]["p"])),
     })
 
 
